@@ -200,7 +200,7 @@ fn eval_history(seq: &[Ep], full_positions: bool, acc: &mut Acc) {
                 // ---- completeness: the true history must be accepted
                 // (in the scaled pass the accumulated difficulty may not fit into 256 bits: then only
                 // the trend check is evaluated)
-                let total_fits = shift == 0 || (true_total >> (255 - shift)) == 0;
+                let total_fits = shift == 0 || 255 - shift >= 128 || (true_total >> (255 - shift)) == 0;
                 let end_total = if shift > 0 && total_fits { u(base) + (u(true_total) << shift) } else if shift > 0 { U256::zero() } else { u(base + true_total) };
                 acc.calls += 2;
                 acc.complete_checked += 1;
@@ -249,7 +249,9 @@ fn eval_history(seq: &[Ep], full_positions: bool, acc: &mut Acc) {
                         describe(true_total as i128),
                     );
                 }
-                if base != 1000 || shift > 0 {
+                if base != 1000 || shift > 0 || n > 5 {
+                    // (long histories: completeness only, the reference envelope is exact integer
+                    // arithmetic scaled by tau^n)
                     continue;
                 }
                 // ---- soundness: must-reject set
@@ -591,6 +593,43 @@ pub(crate) fn run(opts: &Opts, report: &mut Report) {
         }
         report.count("scaled_histories", acc.histories - before);
         report.count(&format!("scaled_difficulties/shift{}", SHIFT), eps_scaled.len() as u64 / 3);
+    }
+    // ---- long legal histories (completeness only): many epoch switches between the two proven end
+    // points - constant difficulty, a ramp up / down by tau per epoch followed by a plateau, and a
+    // zigzag - for small, medium and 2^70-scale block difficulties
+    {
+        let before = acc.histories;
+        let ns: Vec<usize> = if thorough { (4..=400).collect() } else { (4..=48).chain([64, 100, 150, 200, 300]).collect() };
+        let mk = |d: u64, shift: u32| -> Option<Ep> {
+            let real = U256::from(d) << shift;
+            let compact = difficulty_to_compact(real.clone());
+            if compact_to_difficulty(compact) == real { Some(Ep { len: 2, d, compact, shift }) } else { None }
+        };
+        for shift in [0u32, 70] {
+            for d0 in [1u64, 2, 3, 8, 16] {
+                let ladder: Vec<Ep> = (0..12).filter_map(|k| mk(d0 << k, shift)).collect();
+                if ladder.is_empty() || ladder[0].d != d0 {
+                    continue;
+                }
+                for &n in &ns {
+                    // constant
+                    let constant: Vec<Ep> = vec![ladder[0]; n + 1];
+                    eval_history(&constant, false, &mut acc);
+                    if ladder.len() >= 4 {
+                        // ramp up then plateau, ramp down then plateau, zigzag
+                        let up: Vec<Ep> = (0..=n).map(|i| ladder[i.min(ladder.len() - 1)]).collect();
+                        let down: Vec<Ep> = (0..=n).map(|i| ladder[(ladder.len() - 1).saturating_sub(i)]).collect();
+                        let zig: Vec<Ep> = (0..=n).map(|i| ladder[i % 2]).collect();
+                        for seq in [up, down, zig] {
+                            if seq.windows(2).all(|w| legal_step(&w[0], &w[1])) {
+                                eval_history(&seq, false, &mut acc);
+                            }
+                        }
+                    }
+                }
+            }
+        }
+        report.count("long_histories", acc.histories - before);
     }
     too_fast_cases(&diffs, &mut acc);
     never_abort(thorough, &mut acc);
